@@ -214,6 +214,19 @@ impl Prop for C08Prop {
                 return Ok(());
             }
         };
+        if case.input.contains('@') && case.aux.is_empty() {
+            // the same text is evaluated again right away with another placeholder: its operands must be the new ones
+            if let Val::C(a, b) = case.ph {
+                let first = Case { ev: case.ev, input: case.input.clone(), ph: case.ph.clone(), aux: vec!["first".into()] };
+                self.check(sub, &first, sc)?;
+                let second = Case { ev: case.ev, input: case.input.clone(), ph: Val::C(-b - 0.75, a * 0.5 + 1.25), aux: vec!["second call with another placeholder".into()] };
+                return self.check(sub, &second, sc).map_err(|mut f| {
+                    f.detail = format!("second evaluation of the same text, placeholder changed from {} to {}", case.ph.show(), second.ph.show());
+                    f.case = Some(second.clone());
+                    f
+                });
+            }
+        }
         let ph = match case.ph {
             Val::C(a, b) => (a, b),
             _ => return Ok(()),
